@@ -13,7 +13,8 @@
 //     total.count = number of matches ever made, change +1/0, never decreasing), exactly one
 //     Requested/OfferedIncompatibleQos event (own QoS, remote QoS, a really violated policy, counter
 //     +1) and NO match event for an incompatible announce on L's topic, and nothing otherwise.
-// Bound: a real DPEventLoop with 3 local readers + 2 local writers (2 readers + 1 writer on topic T1,
+// Bound: a real DPEventLoop with 3 local readers + 3 local writers (2 readers + 2 writers on topic T1
+//   — so that every remote endpoint on T1 can be matched by TWO local endpoints at once —,
 //   1 reader + 1 writer on T2, different QoS) and 2 participants x (writer T1, writer T2, reader T1);
 //   2 QoS assignments (mixed compatible/incompatible; all compatible), fixed per endpoint;
 //   alphabet = 14 events (4 writer announces, 4 writer disposes, 2 reader announces, 2 reader
@@ -121,7 +122,7 @@ mod verif_xc_matching_event_loop {
   const CFGS: [Cfg; 2] = [
     // mixed: P0.w1 ok for LR0+LR1; P0.w2 volatile -> LR2 refuses (durability); P0.r1 ok for LW0;
     //        P1.w1 best-effort -> ok for LR0, refused by LR1 (reliability); P1.w2 ok for LR2;
-    //        P1.r1 wants transient-local -> LW0 (volatile) is refused (durability)
+    //        P1.r1 wants transient-local -> LW0 (volatile) is refused (durability), LW2 is fine
     [q(true, false), q(true, false), q(true, false), q(false, true), q(true, true), q(true, true)],
     // everything compatible with everything
     [q(true, true), q(true, true), q(false, false), q(true, true), q(true, true), q(false, false)],
